@@ -25,9 +25,16 @@ def _tok(x):
     return '?'
 
 
+_OBJ = {}
+
+
 def _run(seq, size, ua):
+    """one object per sequence for the whole run (all cases run in this process): a memo kept on the object must not leak
+    between alphabets"""
     from localcider.sequenceParameters import SequenceParameters
-    o = SequenceParameters(seq)
+    o = _OBJ.get(seq)
+    if o is None:
+        o = _OBJ[seq] = SequenceParameters(seq)
     st, val = call(o.get_reduced_alphabet_sequence, size, ua)
     if st == 'ok' and isinstance(val, (tuple, list)) and len(val) == 2 and isinstance(val[1], list):
         keep = (val[0], list(val[1]))
@@ -96,7 +103,7 @@ def build(ctx):
                 extra = rng.choice(['X', '-', 'b', 'ALA'])
                 ua[extra] = rng.choice([extra, 'A'])
                 ua[rng.choice(AAS)] = extra
-        s = rng.choice(seqs)
+        s = rng.choice(seqs[:8])          # few sequences: each object sees many different user alphabets
         add(s, rng.choice([2, 5, 20, 7]), ua)
     for ua in ([('A', 'A')], 'ACDE', ['A'], (), [], ''):
         add(rng.choice(seqs), 4, ua)
